@@ -727,8 +727,66 @@ def work_tight(shard):
     return part
 
 
+# ---------------------------------------------------------------------------
+# variable names are case-insensitive at the API as they are in BASIC
+
+NAME_SPELLINGS = [('a%', 7), ('Ab$', b'str'), ('x!', 1.5), ('dd#', 2.25),
+                  ('a%()', [1, 2, 3]), ('mat!()', [0.5, 1.5]), ('Mat#()', [2.0, 4.0, 6.0]), ('nm$()', [b'p', b'', b'qr'])]
+
+
+def _spellings(name):
+    return sorted({name, name.upper(), name.lower(), name.capitalize(), name.swapcase()})
+
+
+def work_names(shard):
+    H = _H()
+    part = Partial()
+    for name, value in shard:
+        for sp_set in _spellings(name):
+            for sp_get in _spellings(name):
+                s = H.new_session()
+                case = {'name': name, 'set_as': sp_set, 'get_as': sp_get}
+                try:
+                    part.n += 1
+                    part.traces += 1
+                    ok, _ = _guard(part, 'names/set', case, s.set_variable, sp_set, value)
+                    if not ok:
+                        part.violation('names/set-refused', 'set_variable(%r, %r) is refused' % (sp_set, value), case)
+                        continue
+                    ok, got = _guard(part, 'names/get', case, s.get_variable, sp_get)
+                    isarr = name.endswith('()')
+                    if isarr and ok and got is not None:
+                        got = list(got)[:len(value)]
+                        if value and isinstance(value[0], bytes):
+                            got = [bytes(x) for x in got]
+                    elif ok and isinstance(value, bytes) and got is not None:
+                        got = bytes(got)
+                    if not ok or got != value:
+                        part.violation('names/%s/value-not-found-under-other-spelling' % ('array' if isarr else 'scalar'),
+                                       'set_variable(%r, %r) then get_variable(%r) gives %r' % (sp_set, value, sp_get, got if ok else 'an error'), case)
+                        continue
+                    # ... and it is the variable BASIC knows under that name
+                    expr = (name[:-2].upper() + '(1)') if isarr else name.upper()
+                    ok, ev = _guard(part, 'names/evaluate', case, s.evaluate, expr)
+                    want = value[1] if isarr else value
+                    if isinstance(want, bytes) and ev is not None:
+                        ev = bytes(ev)
+                    if ok and ev != want:
+                        part.violation('names/%s/not-the-basic-variable' % ('array' if isarr else 'scalar'),
+                                       'set_variable(%r, %r) then evaluate(%r) gives %r' % (sp_set, value, expr, ev), case)
+                    part.classes.add('names/%s/%s' % ('array' if isarr else 'scalar', name[-3:].strip('()') if isarr else name[-1:]))
+                finally:
+                    s.close()
+    part.sample({'names': [n for n, _v in shard]})
+    return part
+
+
 def legs(ctx):
     out = []
+    out.append(Leg('names', [[nv] for nv in NAME_SPELLINGS], work_names, exhaustive=True,
+                   bound='%d variables (scalars and arrays of the four types) set under every '
+                         'capitalisation (as written, upper, lower, capitalised, swapped) and read under every capitalisation, then '
+                         'evaluated in BASIC' % len(NAME_SPELLINGS)))
     out.append(Leg('int', [(lo, lo + 2048) for lo in range(-32768, 32768, 2048)], work_int,
                    exhaustive=True, bound='all 65536 integers x {I%, S!, D#}; True/False'))
     shards = [('one', 0, 0)]
@@ -774,7 +832,18 @@ def legs(ctx):
     return out
 
 
+def _replay_names(case):
+    for name, value in NAME_SPELLINGS:
+        if name == case['name']:
+            part = work_names([(name, value)])
+            part.viol = [v for v in part.viol if v[2].get('set_as') == case['set_as'] and v[2].get('get_as') == case['get_as']]
+            return part
+    return Partial()
+
+
 def replay(ctx, leg, case):
+    if leg == 'names':
+        return _replay_names(case)
     H = _H()
     part = Partial()
     if leg == 'tight':
